@@ -9,21 +9,26 @@ META = dict(
     technique=('Coq proof over an executable model of the DNAGenerator state machines (Sweeping, seeded Random, Deduping, Evolution with its '
                'recover override) + differential correspondence at every crash point + direct recovery oracle on the real algorithms through JSON'),
     design_ref='DESIGN.md §5 C15',
-    level_text=('Theorems (closed, no axioms) over the executable model of the DNAGenerator state machines: for EVERY configuration the syntax names '
-                '(Sweeping; seeded Random; Evolution with any initialiser, any reproduction, update None/Last n/Top n/newest-generation/recorded table; Deduping over any of these with any '
-                'hash, auto-reward, max_duplicates, max_proposal_attempts; only Deduping directly over Deduping is excluded), for every schedule of propose / feedback-in-order / abandon events '
+    level_text=('Theorems (16, closed, no axioms) over the executable model of the DNAGenerator state machines: for EVERY configuration the syntax names '
+                '(Sweeping; Random seeded or not; Evolution with any initialiser, any reproduction, update None / Last n / Last(step) / Top n / newest generation (NEAT) / NSGA2 (its own operators modelled: '
+                'nondominated sort, crowding distance over exact rationals, elites, cursor) / recorded table; Deduping over any of these with any hash, auto-reward, max_duplicates, max_proposal_attempts; '
+                'only Deduping directly over Deduping is excluded, and refuted: C15_nested_deduping_refuted, an open finding), for every schedule of propose / feedback-in-order / abandon events '
                 '(hence every crash point k and every number w of missing rewards) a fresh instance that replays the persisted history has the same num_proposals, num_feedbacks, population '
-                '(values, fitness, ids) and de-duplication cache as the uninterrupted run, including the wrapped Evolution of a Deduping (C15_recover_observable, C15_crash_points, C15_recover_counts, C15_shipped_algorithms), '
-                'also when the history holds the DNAs as they were proposed, without feedback metadata, or the last reward was never fed back (C15_recover_from_stored_proposals); '
-                'Sweeping, seeded Random and Deduping over them then make exactly the same further proposals, any number of them (C15_continuation); the Deduping wrapper preserves recoverability of '
-                'any generator (C15_dedup_wrapper); Evolution with ARBITRARY operators over an arbitrary global state recovers counters and population when the update reads only state that '
-                'reproduction does not change (C15_evolution_any_operators_partial: NSGA2/NEAT). Tie: the model is run against the real classes on every crash point of every generated run '
-                '(live state and recovered state, and the next 5 proposals), history persisted through pg.to_json_str/from_json_str; the direct oracle compares the real recovered instance with the real '
-                'uninterrupted one at every crash point.'),
-    level_note=('Trusted: Coq kernel; extraction (ExtrOcamlBasic) cross-checked against vm_compute; the harness tables (seeded PRNG draws, children returned by the real reproduction operator, NSGA2 update results) '
-                'recorded from the real run. Modelled as identity: the JSON round trip of (DNA, metadata, reward) — exercised for real by the oracle. Not modelled: NSGA2 sorting operators and NEAT speciation '
-                '(run, not modelled; partial theorem with operator hypotheses), multi-objective reward normalisation, unseeded Random. Not claimed (and refuted for the model, C15_extra_state_refuted): '
-                'num_generations / population_initialized during the initial phase, pending children of a multi-child generation, feedback out of proposal order.'),
+                '(values, fitness, ids) and de-duplication cache as the uninterrupted run, including the wrapped Evolution of a Deduping (C15_recover_observable, C15_crash_points, C15_recover_counts, '
+                'C15_shipped_algorithms) and the NSGA2 elites (C15_nsga2_elites); also when the history holds the DNAs as they were proposed, without feedback metadata '
+                '(C15_recover_from_proposal_time_history), when the last reward was never fed back (C15_recover_with_undelivered_reward) — both without any hypothesis on the history: every generator proposes '
+                'DNAs without a sequence number and feedback only adds metadata — and when recover() is called in two parts (C15_recover_in_parts); '
+                'Sweeping, seeded Random and Deduping over them then make exactly the same further proposals, any number of them (C15_continuation), and those of Sweeping are, through the enumeration '
+                'C11 proves, what Sweeping._propose yields over a real DNASpec (C15_sweeping_over_spec); the Deduping wrapper preserves recoverability of any generator (C15_dedup_wrapper); Evolution with '
+                'ARBITRARY operators over an arbitrary global state recovers counters and population when the update reads only state that reproduction does not change (C15_evolution_any_operators), which is '
+                'discharged for NSGA2 (modelled operators) and for NEAT with any speciation (C15_neat_any_speciation). Tie: the model is run against the real classes on every crash point of every generated run '
+                '(live state, recovered state incl. population_initialized / num_generations / NSGA2 elites and cursor, three further recovery variants, the next 5 proposals), history persisted through '
+                'pg.to_json_str/from_json_str; the direct oracle compares the real recovered instance with the real uninterrupted one at every crash point.'),
+    level_note=('Trusted: Coq kernel; extraction (ExtrOcamlBasic) cross-checked against vm_compute; the harness tables (seeded PRNG draws, children returned by the real reproduction operator) '
+                'recorded from the real run. Modelled as identity: the JSON round trip of (DNA, metadata, reward) — exercised for real by the oracle. NSGA2 crowding distances are exact rationals in the model and '
+                'floats in the code: the generated NSGA2 rewards have three levels per objective so that every float operation is exact. Not modelled: NEAT speciation (the theorem holds for any), mutators and '
+                'selectors inside reproduction (recorded; the theorems hold for any), multi-objective reward normalisation. Not claimed (and refuted for the model, C15_extra_state_refuted): '
+                'num_generations / population_initialized during the initial phase, pending children of a multi-child generation, feedback out of proposal order. Open finding: Deduping directly over Deduping.'),
     rule=('a case is (algorithm configuration, search space, reward table, event schedule of propose/feedback/abandon); every prefix of the schedule is a crash point; '
           'distinct by (configuration, space, rewards, schedule); non-trivial when the schedule has a crash point with at least one fed-back and one in-flight proposal'),
     trusted_base=['extraction: ExtrOcamlBasic only; ocaml/main.ml lexer/printer; cross-checked against vm_compute on a sample',
@@ -265,17 +270,19 @@ def pack_reward(r):
 # ------------------------------------------------------------------------------------------------
 # canonical encodings
 
+HASH_OFFSET = 10 ** 7      # default-hash keys live far from the small keys of a custom hash_fn
+
 def canon_key(space, key, d=None):
   """Default-hash keys (pg.hash of the DNA, which covers its metadata) are canonicalised: a bare DNA -> its index;
   a DNA carrying Evolution metadata -> m + proposal_id (the hash is then unique per proposal)."""
   if key is None or (isinstance(key, int) and 0 <= key < 64):
     return key
   if key in space.hash_index:
-    return space.hash_index[key]
+    return HASH_OFFSET + space.hash_index[key]
   if d is not None and 'proposal_id' in d.metadata:
-    space.keymap[key] = space.m + d.metadata['proposal_id']
+    space.keymap[key] = HASH_OFFSET + space.m + d.metadata['proposal_id']
   elif d is not None and not space.finite:
-    space.keymap[key] = space.idx(d)
+    space.keymap[key] = HASH_OFFSET + space.idx(d)
   return space.keymap[key]
 
 def enc_dna(space, d):
